@@ -280,7 +280,16 @@ func checkC25(c *Ctx, r *Report) {
 		fromResolve := mentions(args[0], func(v ssa.Value) bool {
 			return isCallTo(v, "(lib/hostlist.List).Resolve", "(lib/healthcheck.List).Resolve")
 		}, 4)
-		if prm, isP := args[1].(*ssa.Parameter); isP && fromResolve {
+		// the count may be a parameter, or a parameter plus/minus a constant (retries+1)
+		cnt, off := args[1], int64(0)
+		if b, isB := cnt.(*ssa.BinOp); isB && (b.Op == token.ADD || b.Op == token.SUB) {
+			if k := constK(b.Y); k >= 0 {
+				cnt, off = b.X, tern64(b.Op == token.ADD, k, -k)
+			} else if k := constK(b.X); k >= 0 && b.Op == token.ADD {
+				cnt, off = b.Y, k
+			}
+		}
+		if prm, isP := cnt.(*ssa.Parameter); isP && fromResolve {
 			// wrapper: the sample is what it returns
 			idx, ridx := -1, -1
 			for i, q := range fn.Params {
@@ -302,6 +311,9 @@ func checkC25(c *Ctx, r *Report) {
 						continue
 					}
 					k := constK(wc.Instr.Common().Args[idx])
+					if k >= 0 {
+						k += off
+					}
 					var sv ssa.Value
 					if fn.Signature.Results().Len() == 1 {
 						sv = wc.Instr.Value()
@@ -321,6 +333,9 @@ func checkC25(c *Ctx, r *Report) {
 						continue
 					}
 					k := constK(wc.Instr.Common().Args[idx])
+					if k >= 0 {
+						k += off
+					}
 					srcs = append(srcs, sampleSrc{wc.Caller, wc.Instr, nil, k, k >= 1 && k <= 3})
 					if k < 1 || k > 3 {
 						all = false
@@ -445,4 +460,11 @@ func reachesAvoiding(a, b, avoid *ssa.BasicBlock) bool {
 		st = append(st, x.Succs...)
 	}
 	return false
+}
+
+func tern64(c bool, a, b int64) int64 {
+	if c {
+		return a
+	}
+	return b
 }
